@@ -214,6 +214,7 @@ type c17Env struct {
 	Ops     []c17Op
 	Outs    []c17Out
 	Now0    int64
+	Uniform bool // generator flag: per-channel constant TTLs
 	Meta0   int64
 	// interesting-state counters
 	SawExpired, SawEpochChange, SawTrim, SawNonEmpty, SawSuppIdem, SawSuppVer int
